@@ -330,7 +330,7 @@ def bounded_scenario(r, idx, kind):
             'bounded_ref': True, 'ref_search': [0.2, 4.0 * gap], 'bound_kind': kind}
 
 
-DEP_KINDS = ['solve', 'pickup-thickness', 'pickup-radius']
+DEP_KINDS = ['solve', 'pickup-thickness', 'pickup-radius', 'pickup+solve']
 
 
 def dependent_scenario(r, idx, dep):
@@ -345,6 +345,13 @@ def dependent_scenario(r, idx, dep):
     elif dep == 'pickup-thickness':
         comp = {'type': 'thickness', 'kw': {'surface_number': 2}}
         pickups.append([2, 'thickness', 3, spec['surfaces'][2]['thickness'] / gap, 0.0])   # glass thickness follows the gap
+    elif dep == 'pickup+solve':
+        # BOTH: the pickup target (rear radius of the first lens, source = the perturbed front radius) feeds the image-
+        # distance solve; a compensator makes the optimiser call Optic.update() at perturbed values
+        spec['surfaces'][1]['radius'] = -spec['surfaces'][0]['radius']
+        comp = r.choice([{'type': 'thickness', 'kw': {'surface_number': 2}}, {'type': 'thickness', 'kw': {'surface_number': 1}}])
+        pickups.append([1, 'radius', 2, -1.0, 0.0])
+        solves.append(['marginal_ray_height', 5, 0.0])
     else:
         comp = {'type': 'radius', 'kw': {'surface_number': 4}}
         pickups.append([4, 'radius', 3, -1.0, 0.0])             # symmetric second lens
@@ -405,6 +412,53 @@ def tiny_scenario(r, idx, decade, htype):
             'perts': [dict(h, sampler=sam)], 'comps': [], 'method': 'generic', 'tol': 1e-5, 'analysis': analysis,
             'trials': 2 if analysis == 'mc' else None, 'WS': sorted({0.45, 0.7, prim}), 'check_repro': True,
             'tiny': decade}
+
+
+def partial_failure_scenario(r, idx, analysis):
+    """a radius sweep whose short end makes PART of the beam fail (outer pupil ring beyond the sphere, inner rings
+    through): ray operands of such a trial are undefined; polychromatic (wavelength='all') and explicit-wavelength spot
+    operands, marginal and zonal real rays"""
+    epd = r.uniform(7, 10)
+    h = epd / 2
+    R_nom = r.uniform(30, 50)
+    R_fail = h * r.uniform(0.75, 0.95)        # 2/3 h < R_fail < h : the outer hexapolar ring misses the sphere
+    ws = sorted(r.sample(WAVES, r.choice([2, 3])))
+    pi = r.randrange(len(ws))
+    spec = _lens([{'radius': R_nom, 'thickness': r.uniform(3, 5), 'material': r.choice([['ideal', r.uniform(1.5, 1.7), 0.0],
+                                                                                       ['glass', r.choice(GLASSES), 'schott']])},
+                  {'radius': r.choice([INF, -r.uniform(100, 300)]), 'thickness': r.uniform(40, 70), 'material': 'air'}],
+                 waves=tuple((w, j == pi) for j, w in enumerate(ws)))
+    spec['aperture'] = ['EPD', epd]
+    prim = ws[pi]
+    sam = ['range', R_fail, R_nom, r.choice([2, 3])] if analysis == 'sens' else r.choice([['range', R_fail, R_nom, 2], ['scalar', R_fail]])
+    ops = [['rms_spot_size', {'surface_number': -1, 'Hx': 0.0, 'Hy': 0.0, 'num_rays': 3, 'wavelength': 'all', 'distribution': 'hexapolar'}],
+           ['rms_spot_size', {'surface_number': -1, 'Hx': 0.0, 'Hy': 0.0, 'num_rays': 3, 'wavelength': prim, 'distribution': 'hexapolar'}],
+           ['real_y_intercept', {'surface_number': -1, 'Hx': 0.0, 'Hy': 0.0, 'Px': 0.0, 'Py': 1.0, 'wavelength': prim}],
+           ['real_y_intercept', {'surface_number': -1, 'Hx': 0.0, 'Hy': 0.0, 'Px': 0.0, 'Py': 0.5, 'wavelength': prim}],
+           ['f2', {}]]
+    return {'name': f'p{idx}-partial-failure-{analysis}', 'lens': spec, 'pickups': [], 'solves': [], 'operands': ops,
+            'perts': [{'type': 'radius', 'kw': {'surface_number': 1}, 'sampler': sam}], 'comps': [], 'method': 'generic',
+            'tol': 1e-5, 'analysis': analysis, 'trials': 2 if analysis == 'mc' else None, 'WS': sorted(set(ws + [0.45, 0.7])),
+            'check_repro': True, 'partial_failure': True}
+
+
+def int_coeff_scenario(r, idx, geom):
+    """freeform surface whose coefficient array was entered with INTEGER entries (e.g. a zero array typed as 0)"""
+    sc = freeform_scenario(r, idx, geom, 'inside')
+    s0 = sc['lens']['surfaces'][0]
+    nr, nc = len(s0['coefficients']), len(s0['coefficients'][0])
+    s0['coefficients'] = [[0 for _ in range(nc)] for _ in range(nr)]
+    p = sc['perts'][0]
+    p['sampler'] = ['range', -0.004, 0.004, 2]
+    sc['perts'] = [p]
+    sc['analysis'], sc['trials'] = 'sens', None
+    sc['name'] = f'i{idx}-{geom}-integer-coefficients'
+    sc['int_coeffs'] = True
+    sc['coeff_class'] = f'{geom}/integer-array'
+    return sc
+
+
+ROUTES = ['direct', 'handbuilt', 'reuse', 'roundtrip']
 
 
 COEFF_KINDS = ['inside', 'row-outside', 'col-outside', 'both-outside']
@@ -545,6 +599,14 @@ def class_scenarios(ctx, seed_off=0):
     out.append(freeform_nominal_scenario(r, 8, r.choice(['polynomial', 'chebyshev']), 'col-outside'))
     out.append(freeform_nominal_scenario(r, 9, r.choice(['polynomial', 'chebyshev']), r.choice(['both-outside', 'row-outside', 'inside'])))
     out.append(asphere_beyond_scenario(r, 10))
+    out.append(int_coeff_scenario(r, 11, r.choice(['polynomial', 'chebyshev'])))
+    # perturbations that make PART of the beam fail
+    out.append(partial_failure_scenario(r, 0, 'sens'))
+    out.append(partial_failure_scenario(r, 1, 'mc'))
+    # every class reaches its Optic object through each public route in turn (fixed assignment, not random)
+    for i, sc in enumerate(out):
+        sc['route'] = ROUTES[(i + ctx.seed) % 4]
+        sc['route_seed'] = ctx.seed * 31 + i
     if not ctx.quick():
         for i in range(20, 80):
             out.append(tiny_scenario(r, i, 1 + i % 12, types[i % 7]))
@@ -566,6 +628,8 @@ def scenarios(ctx, n, seed_off=0):
             out.append(nominal_scenario(r, i))
         else:
             out.append(gen_scenario(r, i))
+        out[-1]['route'] = ROUTES[(i + 1) % 4]
+        out[-1]['route_seed'] = ctx.seed * 17 + i
     return out
 
 
@@ -829,6 +893,32 @@ def python_level_checks(sc, r):
             out.append(dict(base, check=key, violates_property=True,
                             detail=f'{key}: surface sag differs from the sag of the prescribed coefficients by {v!r} (built lens: {sb!r})'))
             break
+    # the object under test is the prescription that was entered, whatever route built it, and again after run / reset
+    # (only reported when the snapshot agrees, otherwise the prescription clauses above carry the attribution)
+    for key, gate in (('presc_built', True), ('presc_after_run', not r['diff_run']), ('presc_after_reset', not r['diff_reset'])):
+        if gate and r.get(key):
+            q = r[key][0]
+            out.append(dict(base, check=key, violates_property=True,
+                            detail=f'{key} (route {sc.get("route", "direct")}): {q.get("quantity")}: implementation {q.get("implementation")!r}, entered {q.get("entered")!r}'))
+            break
+    # recorded ray operands equal the values recomputed from the traced rays of the replayed lens; a trial in which some
+    # ray has no image point must be recorded as undefined
+    for ti, (tr, e) in enumerate(zip(r['trials'], r.get('oracle', []))):
+        ro = e.get('ray_ops')
+        if not ro or sc['comps']:
+            continue
+        hit = False
+        for k, (rec, x) in enumerate(zip(tr['row_ops'], ro)):
+            if x is None or 'error' in x:
+                continue
+            if not _close(rec, x['v'], 1e-9):
+                out.append(dict(base, check='operand_vs_rays', violates_property=True, trial=ti, explained=[tuple(e.get('explained') or ['?'])] if not e['ok'] else None,
+                                detail=f'trial {ti} (values {tr["values"]}): operand {sc["operands"][k][0]} {sc["operands"][k][1].get("wavelength")} recorded {rec!r}, '
+                                       f'traced rays of the replayed lens give {x["v"]!r} ({x["failed"]} of {x["rays"]} rays without image point)'))
+                hit = True
+                break
+        if hit:
+            break
     # compensator limits: the recorded (compensated) lens must respect the declared limits ...
     for ci, c in enumerate(sc['comps']):
         b = c.get('bounds') or {}
@@ -923,7 +1013,7 @@ def system_checks(ctx):
             continue
         if 'setup_error' in r:
             continue        # registration refused (expected for an asphere index beyond the stored list): checked below
-        if sc.get('solves') or sc.get('share'):
+        if sc.get('solves') or sc.get('share') or sc.get('int_coeffs'):
             continue        # solves / one sampler object shared by two perturbations are not in the Coq model:
                             # implementation-level clauses only (below)
         bodies.append(coq_body(sc, r))
@@ -938,7 +1028,15 @@ def system_checks(ctx):
         # clauses stated directly on the implementation (all scenarios): limits respected, independent bounded
         # reference, to_dict() back at nominal; for lenses with solves also the prescription clauses
         keep = ('comp_bounds', 'bounded_reference', 'dict_run', 'dict_reset', 'setup_changes_lens', 'setup_changes_operands',
-                'sag_after_setup', 'sag_after_run', 'sag_after_reset')
+                'sag_after_setup', 'sag_after_run', 'sag_after_reset', 'presc_built', 'presc_after_run', 'presc_after_reset',
+                'operand_vs_rays')
+        hist['route:' + sc.get('route', 'direct')] = hist.get('route:' + sc.get('route', 'direct'), 0) + 1
+        if sc.get('dependent'):
+            hist['dependent:' + sc['dependent']] = hist.get('dependent:' + sc['dependent'], 0) + 1
+        if 'setup_error' not in r:
+            pf = sum(1 for e in r.get('oracle', []) for x in (e.get('ray_ops') or []) if x and x.get('failed') and x['failed'] < x['rays'])
+            if pf:
+                hist['operands-with-partial-ray-failure'] = hist.get('operands-with-partial-ray-failure', 0) + pf
         if sc.get('coeff_class'):
             hist['coeff-index:' + sc['coeff_class']] = hist.get('coeff-index:' + sc['coeff_class'], 0) + 1
         if 'setup_error' in r:
@@ -948,7 +1046,7 @@ def system_checks(ctx):
                             'detail': f'add_perturbation raised {r["setup_error"]} and left the lens changed at {r["setup_error_diff"][:4]} '
                                       f'(sag deviation {r["sag_after_setup"]!r})'})
             continue
-        if sc.get('solves') or sc.get('share'):
+        if sc.get('solves') or sc.get('share') or sc.get('int_coeffs'):
             keep = None
             n_solve += 1
         if sc.get('solves'):
@@ -1060,6 +1158,15 @@ def targeted():
             'perts': [{'type': 'radius', 'kw': {'surface_number': 1}, 'sampler': ['normal', 60.0, 0.5, sd]},
                       {'type': 'thickness', 'kw': {'surface_number': 1}, 'sampler': ['uniform', 4.9, 5.1, None]}],
             'analysis': 'mc', 'trials': 3, 'WS': [0.45, 0.5876, 0.7], 'check_repro': True}
+    t['integer-coefficients-truncate'] = {
+        'name': 't-intcoef', 'lens': _lens([{'type': 'polynomial', 'radius': 60.0, 'conic': 0.0, 'coefficients': [[0, 0], [0, 0], [0, 0]],
+                                             'thickness': 5.0, 'material': ['ideal', 1.5, 0.0]},
+                                            {'radius': -200.0, 'thickness': 60.0, 'material': 'air'}]),
+        'pickups': [], 'solves': [], 'comps': [], 'method': 'generic', 'tol': 1e-5,
+        'operands': [['real_y_intercept', {'surface_number': -1, 'Hx': 0.0, 'Hy': 0.0, 'Px': 0.5, 'Py': 0.7, 'wavelength': 0.5876}]],
+        'perts': [{'type': 'polynomial_coeff', 'kw': {'surface_number': 1, 'coeff_index': [1, 1]}, 'sampler': ['range', -0.01, 0.01, 2]}],
+        'analysis': 'sens', 'trials': None, 'WS': [0.45, 0.5876, 0.7], 'check_repro': True, 'int_coeffs': True, 'c2shape': [3, 2],
+        'coeff_class': 'polynomial/integer-array'}
     t['reset-skips-update'] = {
         'name': 't-pickup', 'lens': _lens([{'radius': 60.0, 'thickness': 5.0, 'material': ['ideal', 1.5, 0.0]},
                                            {'radius': -60.0, 'thickness': 90.0, 'material': 'air'}]),
@@ -1093,7 +1200,8 @@ def entry_rule(sc, entry):
     return None
 
 
-VARIANT_TAG = {'d23': 'index-reset-loses-dispersion', 'plane': 'plane-radius-reset'}
+VARIANT_TAG = {'d23': 'index-reset-loses-dispersion', 'plane': 'plane-radius-reset',
+               'intcoef': 'integer-coefficients-truncate'}
 
 
 def witness_rules(w):
@@ -1119,6 +1227,13 @@ def witness_rules(w):
                 return None
             rules.add(r)
         return rules
+    if c == 'operand_vs_rays' and w.get('explained'):
+        rules = set()
+        for variant in w['explained']:
+            if '?' in variant:
+                return None
+            rules |= {VARIANT_TAG[v] for v in variant}
+        return rules or None
     if c in ('row_fresh', 'p_rows_fresh_state'):
         ex = w.get('explained') or []
         if w.get('state_only'):
